@@ -255,7 +255,7 @@ pub fn codec_probe() -> Value {
             continue;
         }
         let enc = make(o, &[0x0102, 0x0304, 0x0506], 1);
-        v.push(json!({"op": op, "defined": true, "enc": enc.code, "lines": enc.lines.len()}));
+        v.push(json!({"op": op, "defined": true, "name": format!("{:?}", o), "enc": enc.code, "lines": enc.lines.len()}));
     }
     json!({"how":"ok","probe":v})
 }
